@@ -186,3 +186,87 @@ PROPS["C15"] = dict(
     assumptions=["NaN and infinities excluded (finite doubles, as stated)", "separators are non-alphanumeric, "
                  "non-whitespace characters that cannot continue a number"],
 )
+
+PROPS["C01"] = dict(
+    harness="gcsim.c", unity=["GC.c"], level="exploration", args=["--prop", "C01"], prop_args_first=True,
+    technique="runtime shadow-heap monitor: mutator with a shadow graph of every edge; after every operation and "
+              "every collection each shadow-reachable object must be live (ledger, mem(gc,p), canary, contents read "
+              "back), under ASan+UBSan and gcc -O2",
+    level_text="Exploration: random heap mutations (allocate/link/overwrite/unlink, container growth and shrink "
+               "bursts, Box ownership, root drops, explicit deletion, garbage bursts, forced and threshold "
+               "collections) over 13 object representations (plain struct, struct with Mark, struct at adversarial "
+               "addresses, Ref, Box, Array/List of Ref, Array of structs, Table and Tree with Int or pointer keys, "
+               "heap Tuple) and 3 root kinds (stack slot, new_root holder, thread-local entry), plus rings, complete "
+               "graphs through Tuples, fan-out 1000 and chains of 10^2..10^6 links collected in child processes.",
+    level_note="One-directional oracle: only the reclamation of an object the shadow graph still reaches is "
+               "reported. The shadow graph contains only word-aligned pointers to object starts stored in memory the "
+               "collector documents as scanned. A register as the only root cannot be forced from C.",
+    quick=[("asan", 16, 30), ("plain", 8, 40, {"env": {"VH_LONG_CHAINS": "1"}})],
+    thorough=[("asan", 16, 600), ("plain", 16, 1500, {"env": {"VH_LONG_CHAINS": "1"}})],
+    stack_mb=None,
+    floors={"quick": {"forced_collections": 50, "threshold_collections_that_freed_something": 10,
+                      "sweeps_that_freed_something": 10, "rootkind_checked:stack": 1,
+                      "rootkind_checked:root-holder": 1, "rootkind_checked:thread-local": 1, "rings": 1,
+                      "complete_graphs": 1, "chains_of_1e6": 1, "container_bursts": 10, "explicit_deletions": 5,
+                      "boxes": 10}},
+    rule="case = one heap driven through 40-200 (thorough: up to 540) random mutator operations with the "
+         "reachable-set oracle after every operation; distinct = hash of the operation list; non-trivial = at least "
+         "20 operations",
+    assumptions=["interior-pointer-only references and pointers kept in static or malloc'd memory are outside the "
+                 "collector's contract and are not generated", "boxed objects have exactly one owner"],
+)
+for _n in ("struct", "struct+Mark", "struct@addr", "Ref", "Box", "Array<Ref>", "List<Ref>", "Array<struct>",
+           "Table<Int,Ref>", "Table<Ref,Ref>", "Tree<Int,Ref>", "Tree<Ref,Ref>", "Tuple"):
+    PROPS["C01"]["floors"]["quick"]["kind_checked:" + _n] = 1
+
+PROPS["C17"] = dict(
+    harness="gcsim.c", unity=["GC.c"], level="exploration", args=["--prop", "C17"], prop_args_first=True,
+    technique="runtime monitor: shadow set of managed allocations + white-box walker over the collector's registry "
+              "(count, stored home, probe order, duplicates, root flag, min/max, mark bits), also from inside "
+              "destructors during a sweep; mem(gc,p) oracle for live, deleted and reclaimed objects",
+    level_text="Exploration: the C01 mutator (managed, root and boxed allocations, explicit deletions, forced and "
+               "threshold collections, garbage bursts) with probe objects placed at addresses that collide at slot "
+               "0 or at the last slot of every registry size up to 101; after operations and inside sweeps the "
+               "registry is walked white-box and compared with the harness's own record of what was allocated, "
+               "deleted and observed finalised.",
+    level_note="For objects without a destructor the harness cannot know whether garbage has already been reclaimed; "
+               "for those only 'no unknown, deleted or duplicate entry' and 'every reachable object present' are "
+               "checked; probes (with destructors) are checked exactly.",
+    quick=[("asan", 16, 30), ("plain", 8, 60)],
+    thorough=[("asan", 16, 600), ("plain", 16, 2000)],
+    floors={"quick": {"forced_collections": 50, "registry_walks_inside_sweep": 20, "registry_wrapped_entries": 1,
+                      "registry_entries_displaced_2_or_more": 10, "explicit_deletions": 5,
+                      "root_holders_allocated": 5, "root_holders_deleted": 1}},
+    rule="case = one heap driven through 40-200 (thorough: up to 540) random mutator operations, registry walked "
+         "every 4th operation, after every forced collection and inside sweeps; distinct = hash of the operation "
+         "list; non-trivial = at least 20 operations",
+    assumptions=["every managed allocation in the process is made by the harness (so an unknown registry entry is a "
+                 "violation)"],
+)
+
+PROPS["C06"] = dict(
+    harness="c06_lifecycle.c", unity=["GC.c"], level="exploration", ld="-Wl,--wrap=free",
+    technique="runtime ledger monitor: construction/finalisation/release ledger of probe objects (own Alloc "
+              "instance, or link-time wrapped free), checked at every transition, right after every del*, and at "
+              "thread and process teardown; ASan for double frees",
+    level_text="Exploration: random interleavings of new/new_root/new_raw, del/del_root/del_raw, Box and "
+               "Array<Box>/List<Box> ownership (both sweep orders of owner and owned), forced and threshold "
+               "collections, stop/start windows with allocations and deletions inside, run on the main thread, in "
+               "worker threads (teardown checked after join) and in forked child processes that exit normally "
+               "(teardown checked from a destructor function that runs after the library's atexit handlers).",
+    level_note="'By a collection after it became unreachable' is not decided (a conservative collector may retain "
+               "garbage); what is decided is exactly-once finalisation, finalisation by del*, and complete release at "
+               "the latest at teardown. Probe destructors allocate nothing.",
+    quick=[("asan", 16, 45), ("plain", 8, 90)],
+    thorough=[("asan", 16, 900), ("plain", 16, 3000)],
+    floors={"quick": {"garbage_pairs_owner_swept_before_owned": 20, "garbage_pairs_owned_swept_before_owner": 20,
+                      "deletions_inside_stop_window": 10, "allocations_inside_stop_window": 10,
+                      "worker_teardowns_with_live_garbage": 50, "process_teardowns_with_live_garbage": 50,
+                      "del_root": 20, "del_raw": 20, "del_of_box": 10, "containers_of_boxes": 20,
+                      "forced_collections": 50}},
+    rule="case = 30-150 (thorough: up to 330) random allocation/deletion/ownership/collection/stop-start operations "
+         "on the main thread, in a worker thread, or in a forked child process; distinct = hash of the operation "
+         "list; non-trivial = at least 20 operations",
+    assumptions=["root, raw and stop-window allocations are deleted by the program, as the API documents",
+                 "main thread is idle while a worker runs (the ledger itself is then race-free)"],
+)
